@@ -348,11 +348,16 @@ func VH_C03_FindRoots(k, j, tree int) {
 // which-th one (src tree or module cache), the dump goes through ScanSnapshot.
 // Everything reachable from opts is allocated before the write barrier.
 //
+// long = 1 puts a 20000-byte line of text (longer than the reader's buffer)
+// before the dump: scanning keeps no state outside the call either - a write to
+// a package-level variable would be shared by concurrent scans.
+//
 //verif:prop C14
 //verif:param which 0..1
 //verif:param tree 0..1
 //verif:param k 2..3
-func VH_C14_SharedOpts(which, tree, k int) {
+//verif:param long 0..1
+func VH_C14_SharedOpts(which, tree, k, long int) {
 	parts := make([]string, k)
 	for i := range parts {
 		b := vBytes("part"+string(rune('0'+i)), 1)
@@ -369,6 +374,14 @@ func VH_C14_SharedOpts(which, tree, k int) {
 	vSetFile(pathJoin(gp[which], sub, pathJoin(parts[1:]...)) + ".go")
 	// remote workspace /<parts[0]>, same tree below it
 	dump := "goroutine 1 [running]:\nmain.f()\n\t/" + pathJoin(parts[0], sub, pathJoin(parts[1:]...)) + ".go:1 +0x1\n\n"
+	if long == 1 {
+		text := make([]byte, 20000)
+		for i := range text {
+			text[i] = byte('a' + i%23)
+		}
+		text[len(text)-1] = '\n'
+		dump = string(text) + dump
+	}
 	vBarrierOn()
 	f := &vhFeeder{data: []byte(dump)} // the stream and the sink are this call's own
 	sink := &vhSink{}
